@@ -1,9 +1,35 @@
 """Which properties are claimed, with the level text and technique shown in MANIFEST.json."""
 
+P = "Partial: decides necessary structural clauses for every input at once, not the behaviour itself. "
+
 CLAIMED = {
+    "C01": {
+        "technique": "guard dominance on MIR (capture sites under the step test), totality of the Option-returning filter translator on HIR, must-precede of the negation check",
+        "level": P + "Every site recording an event in a run is dominated by the step's type+predicate test; the VPL->SASE filter translator has no None path (callers drop the filter on None); global negations are applied before runs advance in all three entry points.",
+    },
+    "C06": {
+        "technique": "recursion-term extraction (R-SHAPE) on HIR compared with the ZDD recurrences",
+        "level": P + "Each case of the top-variable comparison of union/intersection/difference/product (arena and stand-alone) builds exactly the term of Minato's recurrence, incl. terminal prefixes. Count/iteration/remapping are not decided.",
+    },
+    "C07": {
+        "technique": "who-may-write via field access index, guard dominance and must-pass-through on MIR (R-COMUT)",
+        "level": P + "Nodes are created only in get_or_create under zero-suppression and hash-consing; every replacement of the arena table clears every ZddRef-keyed cache on all paths and gc returns remapped handles. Variable ordering along paths is not decided.",
+    },
     "C08": {
         "technique": "match-arm table agreement (R-ARMS) on type-checked HIR",
-        "level": "For every input at once: each ordering operator row of every expression evaluator and of the pattern comparator handles all four int/float operand pairs, with the row's own operator, unswapped operands and the integer side widened. Decides the reported defect class (missing/incorrect arms); does not decide float rounding.",
+        "level": P + "Each ordering operator row of every expression evaluator and of the pattern comparator handles all four int/float operand pairs, with the row's own operator, unswapped operands and the integer side widened. Float rounding is not decided.",
+    },
+    "C11": {
+        "technique": "per-variant delegation-cycle analysis on HIR (R-REC) and panicking-i64-arithmetic site scan on MIR (R-ARITH)",
+        "level": P + "No Expr variant is passed unchanged around a cycle of evaluator functions (unbounded recursion), and the evaluator module contains no panicking i64 arithmetic. Index/slice panics and user-function recursion are not decided.",
+    },
+    "C40": {
+        "technique": "diagonal arm table of PartialEq and order-sensitivity of the Hash arms on HIR (R-EQHASH)",
+        "level": P + "Value::eq is diagonal with payload comparisons (equivalence follows from payload types), unordered payloads are hashed order-independently, float eq classes match the hash normalisation, every variant is hashed.",
+    },
+    "C46": {
+        "technique": "decision-list extraction and agreement (R-DLIST) on HIR",
+        "level": P + "For every line prefix class the preload and the streaming reader agree on skip vs event and delegate to the same leaf parsers. Values inside the shared leaf parsers are not decided.",
     },
 }
 
